@@ -56,7 +56,7 @@ def _engine_for(pid: str):
         "C03": "check_markersem", "C11": "check_markersem",
         "C10": "check_memo",
         "C04": "check_pep440", "C06": "check_pep440", "C17": "check_pep440",
-        "X01": "check_extra", "X02": "check_extra",
+        "X01": "check_extra", "X02": "check_extra", "X03": "check_extra",
         "C08": "check_wheel", "C16": "check_wheel", "C18": "check_wheel",
     }
     name = table.get(pid)
